@@ -675,6 +675,18 @@ class _AttachOnFail(PathAnalysis):
             if x[0] == "asg" and (mem_field(x[2]) or (0, 0))[1] == "attach":
                 self.seen_dec = True
                 return True
+        # ending access to a *dependent* element takes that element's count off the file: a bare `Hendaccess(dep);`
+        # (result not looked at) is counted as done
+        e = strip(stmt["e"])
+        if kind(e) == "call" and e[1] in ("Hendaccess", "Hendbitaccess") and func.name not in ("Hendaccess",):
+            self.seen_dec = True
+            return True
+        return user
+
+    def on_call_outcome(self, func, call, outcome, env, user):
+        if call[1] in ("Hendaccess", "Hendbitaccess") and outcome == "ok" and func.name not in ("Hendaccess",):
+            self.seen_dec = True
+            return True
         return user
 
     def on_exit(self, func, bid, retval, env, user):
@@ -711,6 +723,15 @@ def rule_attach_on_fail(ctx):
     attach count raised, and Hclose refuses to close (returns FAIL) while it is raised -- so the failure stays visible."""
     prog = ctx.prog
     targets = set(prog.fp_targets().get(("funclist_t", "endaccess"), ())) | {"Hendaccess"}
+    # the close helpers the end-of-access routines hand their access record to (HBPcloseAID, HCPcloseAID, ..)
+    for nm in sorted(targets):
+        f = prog.func(nm)
+        if f is None:
+            continue
+        params = [(p[0] if isinstance(p, (list, tuple)) else p.get("name")) for p in f.params]
+        for _b, _i, _s, c in f.calls():
+            if c[1] and "closeAID" in c[1] and any(kind(strip(a)) == "var" and strip(a)[1] in params for a in c[3]):
+                targets.add(c[1])
     n = 0
     decs = 0
     for nm in sorted(targets):
